@@ -161,6 +161,12 @@ def bitPermutation (nrBits : Nat) (bits : List Nat) : Option (List Nat) :=
       | .error _ => none
       | .ok q => some q
 
+/-- `usize::trailing_zeros` (64 for 0) -/
+def tzAux : Nat → Nat → Nat
+  | 0, _ => 0
+  | f + 1, x => if x % 2 = 1 then 0 else 1 + tzAux f (x / 2)
+def trailingZeros (x : Nat) : Nat := if x = 0 then 64 else tzAux 64 x
+
 /-! ### `nr_affected_bits` -/
 
 mutual
@@ -259,8 +265,10 @@ def route (m : Mode) : GateTerm P → List (Row α m) → Option (List (Row α m
             (blocks (2 ^ nrBits g0) v1).bind fun bs =>
               (bs.mapM (route .vec g1)).map List.flatten
       | .mat => defaultRoute (α := α) (nrBits g0 + nrBits g1) (LMat.kron (matrix g0) (matrix g1)) v
-  | .Composite _ n ops, v => routeOps m ops n v
-  | .Loop _ iters _ n body, v => iterM iters (routeOps m body n) v
+  -- the composite acts on the leading qubits of a possibly larger state: the register size is
+  -- taken from the state (`state.len().trailing_zeros()`), not from the gate
+  | .Composite _ _ ops, v => routeOps m ops (trailingZeros v.length) v
+  | .Loop _ iters _ _ body, v => iterM iters (fun w => routeOps m body (trailingZeros w.length) w) v
 
 /-- the `for op in self.ops` loop of `Composite::apply_slice` / `apply_mat_slice` -/
 def routeOps (m : Mode) : OpList P → Nat → List (Row α m) → Option (List (Row α m))
